@@ -63,6 +63,7 @@ OtherClass ==
      covered_unreadable |-> "valid", covered_vanishes |-> "valid", licenseref_not_utf8 |-> "valid", license_dir_is_file |-> "grey",
      template_bad_syntax |-> "grey", dot_license_not_utf8 |-> "valid",
      dep5_and_nested_toml |-> "invalid", covered_terminator_run |-> "valid",
+     template_raises |-> "grey", template_undefined |-> "grey", template_garbles_expression |-> "grey", dot_license_is_directory |-> "grey",
      licenses_same_identifier |-> "invalid",     \* LICENSES/MIT.txt next to LICENSES/MIT.md: a conflict of the project's set-up
      repository_test |-> "grey" ]     \* inputs of the repository's own tests: only the exit-status discipline is demanded
 
